@@ -87,8 +87,9 @@ EulerDone == Kind = "euler" /\ ~Lt(time, T1) /\ obs' = <<"none">>
              /\ UNCHANGED <<time, dt, phase, k, hist, saveTime, noSent, stat, out>>
 EulerStep ==
   /\ Kind = "euler" /\ Lt(time, T1)
-  /\ LET d == IF ~Lt(Plus(time, dt), T1) THEN Minus(T1, time) ELSE dt
-     IN dt' = d /\ time' = Plus(time, d)
+  /\ LET clip == ~Lt(Plus(time, dt), T1)
+         d == IF clip THEN Minus(T1, time) ELSE dt
+     IN dt' = d /\ time' = (IF clip THEN T1 ELSE Plus(time, d))       \* the clipped step lands on the end: see RkTrial
   /\ Yield(time)
   /\ UNCHANGED <<phase, k, hist, saveTime, noSent, stat>>
 
@@ -99,8 +100,11 @@ RkDone == Kind = "rk" /\ ~Lt(time, T1) /\ obs' = <<"none">>
           /\ UNCHANGED <<time, dt, phase, k, hist, saveTime, noSent, stat, out>>
 RkTrial(accept, dt2) ==
   /\ Kind = "rk" /\ Lt(time, T1)
-  /\ LET d == IF ~Lt(Plus(time, dt), T1) THEN Minus(T1, time) ELSE dt
-         t2 == IF accept THEN Plus(time, d) ELSE time
+  /\ LET clip == ~Lt(Plus(time, dt), T1)
+         d == IF clip THEN Minus(T1, time) ELSE dt
+         \* an accepted clipped step lands on the end itself: over the doubles time + (end - time) need not round
+         \* to end (the code assigns `time = end`, fix b69bf57); over the integers the two are the same
+         t2 == IF accept THEN (IF clip THEN T1 ELSE Plus(time, d)) ELSE time
      IN /\ RkNextOk(d, dt2, accept)
         /\ time' = t2 /\ dt' = dt2
         /\ IF Lt(dt2, DtMin) /\ Lt(t2, T1)
@@ -155,7 +159,7 @@ MsDone ==
 FinalClip ==
   /\ MS /\ phase \in ClipPhases /\ Lt(time, T1) /\ ~Lt(Plus(time, dt), T1)
   /\ dt' = Minus(T1, time)
-  /\ time' = Plus(time, dt')
+  /\ time' = T1                      \* not Plus(time, dt'): see RkTrial
   /\ Yield(time')
   /\ hist' = Append(hist, time')
   /\ UNCHANGED <<phase, k, saveTime, noSent, stat>>
